@@ -384,6 +384,55 @@ def _len_sources(body, base_roots, taint):
     return out
 
 
+def sub_guarded(F, body, site):
+    """Is the `a - b` overflow assert at `site` dominated by a comparison that establishes b <= a?  (`if a < b { return Err } … a - b`,
+    the hand-written form of `a.checked_sub(b).ok_or(..)?`.)  Operands are matched by the local / constant they are copies of."""
+    from rules import compare_sites, REL_SWAP, REL_NEG
+    from flow import copy_root
+    prep(body)
+    g = cfg_of(body)
+    env = fold_consts(F, body)
+    if len(site.get("ops") or []) != 2:
+        return False, "not a binary assert"
+
+    # the assert checks the result of `SubWithOverflow(a, b)`; its operands are recorded on the assert
+    def ident(o):
+        k = _const_int(o, F, env)
+        if k is not None:
+            return ("k", k)
+        if o[0] in ("cp", "mv"):
+            r = copy_root(body, o)
+            return ("p", tuple(r)) if r else None
+        return None
+    a, b = ident(site["ops"][0]), ident(site["ops"][1])
+    if a is None or b is None:
+        return False, "operands not identifiable"
+    tr = Tracker(body)
+    n = 0
+    for c in compare_sites(body):
+        x, y = ident(c["a"]), ident(c["b"])
+        if x is None or y is None:
+            continue
+        rel = None
+        if (x, y) == (a, b):
+            rel = c["op"]                 # a REL b
+        elif (x, y) == (b, a):
+            rel = REL_SWAP[c["op"]]
+        if rel is None:
+            continue
+        n += 1
+        if rel in ("Ge", "Gt", "Eq"):     # a >= b, a > b, a == b  ⇒  b <= a
+            tr.seed_bool(c["d"], True)
+        elif REL_NEG[rel] in ("Ge", "Gt"):  # a < b / a <= b: its *false* side gives a >= b / a > b
+            tr.seed_bool(c["d"], False)
+    if not n:
+        return False, "no comparison of the two operands"
+    tr.run()
+    if tr.accept and site["bb"] not in g.reach((0,), cut=tr.accept):
+        return True, "dominated by a comparison establishing subtrahend <= minuend"
+    return False, "a path reaches the subtraction without the comparison"
+
+
 def index_guarded(F, body, site):
     """Is the indexing / bounds-check at `site` dominated by a length test that implies it is in range?
 
@@ -535,6 +584,14 @@ def no_panic_reach(self, rule, entries, descr=None, suppress=None, stop=(), floo
             key = (root, s["kind"], s["shape"])
             if s["kind"].startswith("assert:BoundsCheck") or "index::Index" in s["kind"]:
                 g_ok, g_why = index_guarded(F, b, s)
+                if g_ok:
+                    discharged.append({"fn": root, "site": s["kind"], "line": s["line"], "by": g_why})
+                    continue
+            if s["kind"].startswith("assert:Overflow(Sub"):
+                try:
+                    g_ok, g_why = sub_guarded(F, b, s)
+                except Exception:
+                    g_ok, g_why = False, ""
                 if g_ok:
                     discharged.append({"fn": root, "site": s["kind"], "line": s["line"], "by": g_why})
                     continue
